@@ -125,9 +125,15 @@ theorem collQual_exact {sC : Schema} {specC : BlockSpec} {wn : Str} {si : Nat} {
 
 /-! ## `array:ITEM` -/
 
-def arrayFacts {items : CField} (ffi : FieldFacts items) (hnc : isCollection items = false)
-    (hnf : wField ∉ ffi.blockNames)
-    (rules : J5V.Compile.Rules) (h : rulesOk j5Env b!"j5.schema.v1.ArrayField" rules = true) :
+/-- the facts of an array, given the run of its body -/
+def arrayFactsWith {items : CField} (ffi : FieldFacts items) (hnc : isCollection items = false)
+    (rules : J5V.Compile.Rules)
+    (hB : FieldRunB (.array items rules) [wRules, wItems] ffi.blockNames
+      (fun d tail => ∃ tail', tail = tcfOf items (d ++ [1, kindIdx items]) :: tail' ∧
+        ffi.tailP (d ++ [1, kindIdx items]) tail')
+      (.msg [false, true, false] [.absent, oneofMsg 15 (kindIdx items) ffi.qualVal, .absent])
+      (.msg [!rules.isEmpty, true, false]
+        [rulesNode sArrayRules rules, oneofMsg 15 (kindIdx items) ffi.typeVal, .absent])) :
     FieldFacts (.array items rules) where
   qualNames := wItems :: ffi.qualNames
   bodyNames := [wRules, wItems]
@@ -174,45 +180,62 @@ def arrayFacts {items : CField} (ffi : FieldFacts items) (hnc : isCollection ite
         · exact List.mem_cons_self
         · exact List.mem_cons_of_mem _ hn))
       (t := [false, false, false]) (vs := [.absent, .absent, .absent]) rfl rfl
-  runB := by
-    intro sc pfx ek a b C hr hsc
-    have hu := rulesOk_unpack h rulesSchema_Array schemaOf_ArrayRules
-    have hfbR : findBlock wRules [cfOf sArrayField specArrayField (a ++ b)] =
-        some (cfOf sArrayField specArrayField (a ++ b), [wRules]) :=
-      findBlock_prop' (show aliasLookup wRules specArrayField.aliases = none by decide +kernel)
-        (propInfo_hasProperty pi_Array_rules)
-    have hfbI : findBlock wItems [cfOf sArrayField specArrayField (a ++ b)] =
-        some (cfOf sArrayField specArrayField (a ++ b), [wItems]) :=
-      findBlock_prop' (show aliasLookup wItems specArrayField.aliases = none by decide +kernel)
-        (propInfo_hasProperty pi_ArrayField_items)
-    -- the array's own rules
-    have h1 := hr.rules (show wRules ∈ [wRules, wItems] by simp) rulesOK_Array hfbR pi_Array_rules
-      specOf_ArrayRules (t := [false, true, false])
-      (vs := [.absent, oneofMsg 15 (kindIdx items) ffi.qualVal, .absent]) rfl rfl rules hu.1 hu.2
-    -- the item's lines, through `items.KIND`
-    have hr1 := hr.child_touched [!rules.isEmpty, true, false] [rulesNode sArrayRules rules, .absent, .absent]
-      (n := wItems) (show wItems ∈ [wRules, wItems] by simp) (by decide) hfbI pi_ArrayField_items specOf_Field
-      rfl (by simp)
-    have hfbK : findBlock (fieldKind items) [cfOf sField specField (a ++ (b ++ [1]))] =
-        some (cfOf sField specField (a ++ (b ++ [1])), [fieldKind items]) :=
-      findBlock_prop' (show aliasLookup (fieldKind items) specField.aliases = none from rfl)
-        (propInfo_hasProperty ffi.pi)
-    have hr2 := hr1.child_touched ((List.replicate 15 false).set (kindIdx items) true) (List.replicate 15 .absent)
-      (n := fieldKind items) trivial (kind_ascii items) hfbK ffi.pi ffi.spec
-      (by rw [List.getElem?_set_self (by simpa using kind_lt items)]) (by simpa using kind_lt items)
-    have hsc' : ScopeAt sc (tcfOf items (a ++ (b ++ [1] ++ [kindIdx items]))) ffi.blockNames
-        (ffi.tailP (a ++ (b ++ [1] ++ [kindIdx items]))) := by
-      have e : a ++ (b ++ [1] ++ [kindIdx items]) = a ++ b ++ [1, kindIdx items] := by simp
-      rw [e]
-      exact scopeAt_item ffi (fun kw hkw => by
-        rcases ffi.blockSub kw hkw with rfl | rfl
-        · exact absurd hkw hnf
-        · exact arrayCF_misses_option _) hsc
-    have h2 := ffi.runB sc (pfx ++ [wItems] ++ [fieldKind items]) false a (b ++ [1] ++ [kindIdx items]) _
-      (hr2.mono (fun _ _ => trivial)) hsc'
-    have hkey : pfx ++ [wItems] ++ [fieldKind items] = pfx ++ [wItems, fieldKind items] := by simp
-    rw [hkey] at h2
-    exact doBody_append h1 h2
+  runB := hB
+
+/-- the body of an array whose item type has no `field` blocks -/
+theorem array_runB {items : CField} (ffi : FieldFacts items) (hnf : wField ∉ ffi.blockNames)
+    (rules : J5V.Compile.Rules) (h : rulesOk j5Env b!"j5.schema.v1.ArrayField" rules = true) :
+    FieldRunB (.array items rules) [wRules, wItems] ffi.blockNames
+      (fun d tail => ∃ tail', tail = tcfOf items (d ++ [1, kindIdx items]) :: tail' ∧
+        ffi.tailP (d ++ [1, kindIdx items]) tail')
+      (.msg [false, true, false] [.absent, oneofMsg 15 (kindIdx items) ffi.qualVal, .absent])
+      (.msg [!rules.isEmpty, true, false]
+        [rulesNode sArrayRules rules, oneofMsg 15 (kindIdx items) ffi.typeVal, .absent]) := by
+  intro sc pfx a b C hr hsc
+  have hu := rulesOk_unpack h rulesSchema_Array schemaOf_ArrayRules
+  have hfbR : findBlock wRules [cfOf sArrayField specArrayField (a ++ b)] =
+      some (cfOf sArrayField specArrayField (a ++ b), [wRules]) :=
+    findBlock_prop' (show aliasLookup wRules specArrayField.aliases = none by decide +kernel)
+      (propInfo_hasProperty pi_Array_rules)
+  have hfbI : findBlock wItems [cfOf sArrayField specArrayField (a ++ b)] =
+      some (cfOf sArrayField specArrayField (a ++ b), [wItems]) :=
+    findBlock_prop' (show aliasLookup wItems specArrayField.aliases = none by decide +kernel)
+      (propInfo_hasProperty pi_ArrayField_items)
+  -- the array's own rules
+  have h1 := hr.rules (show wRules ∈ [wRules, wItems] by simp) rulesOK_Array hfbR pi_Array_rules
+    specOf_ArrayRules (t := [false, true, false])
+    (vs := [.absent, oneofMsg 15 (kindIdx items) ffi.qualVal, .absent]) rfl rfl rules hu.1 hu.2
+  -- the item's lines, through `items.KIND`
+  have hr1 := hr.child_touched [!rules.isEmpty, true, false] [rulesNode sArrayRules rules, .absent, .absent]
+    (n := wItems) (show wItems ∈ [wRules, wItems] by simp) (by decide) hfbI pi_ArrayField_items specOf_Field
+    rfl (by simp)
+  have hfbK : findBlock (fieldKind items) [cfOf sField specField (a ++ (b ++ [1]))] =
+      some (cfOf sField specField (a ++ (b ++ [1])), [fieldKind items]) :=
+    findBlock_prop' (show aliasLookup (fieldKind items) specField.aliases = none from rfl)
+      (propInfo_hasProperty ffi.pi)
+  have hr2 := hr1.child_touched ((List.replicate 15 false).set (kindIdx items) true) (List.replicate 15 .absent)
+    (n := fieldKind items) trivial (kind_ascii items) hfbK ffi.pi ffi.spec
+    (by rw [List.getElem?_set_self (by simpa using kind_lt items)]) (by simpa using kind_lt items)
+  have hsc' : ScopeAt sc (tcfOf items (a ++ (b ++ [1] ++ [kindIdx items]))) ffi.blockNames
+      (ffi.tailP (a ++ (b ++ [1] ++ [kindIdx items]))) := by
+    have e : a ++ (b ++ [1] ++ [kindIdx items]) = a ++ b ++ [1, kindIdx items] := by simp
+    rw [e]
+    exact scopeAt_item ffi (fun kw hkw => by
+      rcases ffi.blockSub kw hkw with rfl | rfl
+      · exact absurd hkw hnf
+      · exact arrayCF_misses_option _) hsc
+  have h2 := ffi.runB sc (pfx ++ [wItems] ++ [fieldKind items]) a (b ++ [1] ++ [kindIdx items]) _
+    (hr2.mono (fun _ _ => trivial)) hsc'
+  have hkey : pfx ++ [wItems] ++ [fieldKind items] = pfx ++ [wItems, fieldKind items] := by simp
+  rw [hkey] at h2
+  exact doBody_append h1 h2
+
+
+def arrayFacts {items : CField} (ffi : FieldFacts items) (hnc : isCollection items = false)
+    (hnf : wField ∉ ffi.blockNames)
+    (rules : J5V.Compile.Rules) (h : rulesOk j5Env b!"j5.schema.v1.ArrayField" rules = true) :
+    FieldFacts (.array items rules) :=
+  arrayFactsWith ffi hnc rules (array_runB ffi hnf rules h)
 
 /-! ## `map:ITEM` -/
 
@@ -265,7 +288,7 @@ def mapFacts {items : CField} (ffi : FieldFacts items) (hnc : isCollection items
         · exact List.mem_cons_of_mem _ hn))
       (t := [false, false, false, false]) (vs := [.absent, .absent, .absent, .absent]) rfl rfl
   runB := by
-    intro sc pfx ek a b C hr hsc
+    intro sc pfx a b C hr hsc
     have hu := rulesOk_unpack h rulesSchema_Map schemaOf_MapRules
     have hfbR : findBlock wRules [cfOf sMapField specMapField (a ++ b)] =
         some (cfOf sMapField specMapField (a ++ b), [wRules]) :=
@@ -294,7 +317,7 @@ def mapFacts {items : CField} (ffi : FieldFacts items) (hnc : isCollection items
       have e : a ++ (b ++ [0] ++ [kindIdx items]) = a ++ b ++ [0, kindIdx items] := by simp
       rw [e]
       exact scopeAt_item ffi (fun kw hkw => mapCF_misses_block _ (ffi.blockSub kw hkw)) hsc
-    have h2 := ffi.runB sc (pfx ++ [wItemSchema] ++ [fieldKind items]) false a (b ++ [0] ++ [kindIdx items]) _
+    have h2 := ffi.runB sc (pfx ++ [wItemSchema] ++ [fieldKind items]) a (b ++ [0] ++ [kindIdx items]) _
       (hr2.mono (fun _ _ => trivial)) hsc'
     have hkey : pfx ++ [wItemSchema] ++ [fieldKind items] = pfx ++ [wItemSchema, fieldKind items] := by simp
     rw [hkey] at h2
